@@ -11,10 +11,10 @@ TABLE = {
     "bucket_put_new_between": ("thorough", 900, 8), "bucket_put_over_second": ("thorough", 900, 8), "bucket_put_new_above": ("thorough", 900, 8), "bucket_create_step": ("quick", 700, 8), "bucket_delete_first": ("quick", 700, 6), "bucket_put_new_below": ("thorough", 900, 8), "bucket_put_over_first": ("quick", 700, 8),
     "bucket_delete_second": ("thorough", 900, None),
     "cursor_seek_single_leaf": ("thorough", 1200, 10),
-    "tx_commit_write_plan": ("quick", 800, 10), "tx_commit_power_loss": ("quick", 850, 10), "tx_commit_cow_freed_page_not_reused": ("quick", 800, 10),
+    "tx_commit_write_plan": ("quick", 800, 10), "tx_commit_power_loss": ("quick", 850, 18), "tx_commit_cow_freed_page_not_reused": ("quick", 800, 10),
     "tx_commit_growth_two_steps": ("quick", 700, 10), "tx_commit_strict_mode_accepts": ("quick", 850, 10),
     "tx_commit_fault_06_sync": ("quick", 700, 10), "tx_commit_fault_08_short": ("quick", 700, 10), "tx_commit_fault_10_sync": ("quick", 700, 10),
-    "tx_abandoned_writer_no_trace": ("quick", 800, 8), "tx_buckets_lists_own_creation": ("quick", 800, 10),
+    "tx_abandoned_writer_no_trace": ("quick", 750, 8), "tx_abandoned_writer_single_page_no_trace": ("quick", 600, 8), "tx_commit_crash_prefix": ("thorough", 1200, 18), "tx_buckets_lists_own_creation": ("quick", 800, 10),
     "db_open_reloads_long_freelist": ("quick", 600, 6),
     # after the layout pins (DESIGN 10.1 item 6)
     "bucket_merge_emptied_leaf_multi_page_root": ("quick", 700, 6),
